@@ -1,5 +1,8 @@
 (** C19 — executable model of the per-block EVM index bookkeeping
-    (x/evm/keeper/msg_server.go, funtoken_from_coin.go, vm_config.go, statedb.AddLog). *)
+    (x/evm/keeper/msg_server.go, funtoken_from_coin.go, vm_config.go, statedb.AddLog) and of the block
+    life cycle around it: BeginBlock phase, delivered txs, EndBlock phase = the module EndBlockers in the
+    order of app/app_config.go (x/gov executes passed proposals, x/evm publishes the block bloom). *)
+From Coq Require Import String.
 From Coq Require Import List Bool Arith.
 Import ListNotations.
 Require Import Nib.C19.Sites.
@@ -56,3 +59,65 @@ Fixpoint run (W : sites) (s : st) (ops : list op) : st * list emit :=
   end.
 
 Definition run_block (W : sites) (ops : list op) : st * list emit := run W init ops.
+
+(** * The whole block: logs are also emitted OUTSIDE DeliverTx *)
+
+(** A proposal: the messages a message-executing EndBlocker (x/gov for a passed proposal) runs in ONE cache
+    context — all of them or none.  A MsgEthereumTx cannot be carried: its signer is recovered from the
+    signature and is never a module account, so an [Eth] op makes the proposal fail. *)
+Definition proposal := list op.
+
+Definition msg_ok (o : op) : bool :=
+  match o_out o with Ok => negb (is_eth (o_kind o)) | _ => false end.
+
+(** what a proposal publishes: the events of all its messages, emitted together when the last one succeeded *)
+Definition merge (es : list emit) : emit :=
+  {| e_ok := true; e_txidx := concat (map e_txidx es); e_logs := concat (map e_logs es) |}.
+
+Definition run_prop (W : sites) (s : st) (p : proposal) : st * emit :=
+  if forallb msg_ok p then let '(s', es) := run W s p in (s', merge es) else (s, nothing).
+
+Fixpoint run_props (W : sites) (s : st) (ps : list proposal) : st * list emit :=
+  match ps with
+  | [] => (s, [])
+  | p :: r => let '(s1, e) := run_prop W s p in let '(s2, es) := run_props W s1 r in (s2, e :: es)
+  end.
+
+(** the proposals each module executes at the end of this block *)
+Definition endmsgs := list (String.string * list proposal).
+
+Fixpoint lookup (m : String.string) (em : endmsgs) : list proposal :=
+  match em with
+  | [] => []
+  | (n, ps) :: r => if String.eqb m n then ps else lookup m r
+  end.
+
+(** EndBlock phase: the module EndBlockers in order; result: state, emits, and the log list folded into
+    every EventBlockBloom that was published *)
+Fixpoint run_end (W : sites) (order : list String.string) (em : endmsgs) (s : st)
+  : st * list emit * list (list (nat * nat)) :=
+  match order with
+  | [] => (s, [], [])
+  | m :: r =>
+      match classify m with
+      | Inert => run_end W r em s
+      | Publish => let '(s', es, pubs) := run_end W r em s in (s', es, bloom s :: pubs)
+      | MayExec =>
+          let '(s1, es1) := run_props W s (lookup m em) in
+          let '(s2, es2, pubs) := run_end W r em s1 in (s2, es1 ++ es2, pubs)
+      end
+  end.
+
+Record block := {
+  b_begin : list op;     (* messages executed by BeginBlockers (none can in the current tree; x/evm's own BeginBlock is a no-op) *)
+  b_txs   : list op;     (* DeliverTx *)
+  b_end   : endmsgs      (* proposals executed by EndBlockers *)
+}.
+
+Record result := { r_emits : list emit; r_pubs : list (list (nat * nat)); r_final : st }.
+
+Definition run_full (W : sites) (O : wiring) (b : block) : result :=
+  let '(s0, eb) := run W init (b_begin b) in
+  let '(s1, et) := run W s0 (b_txs b) in
+  let '(s2, ee, pubs) := run_end W (end_order O) (b_end b) s1 in
+  {| r_emits := eb ++ et ++ ee; r_pubs := pubs; r_final := s2 |}.
